@@ -112,7 +112,7 @@ def _parse_unit(text, base_dir=None):
                         ex.after[-1][1].append(mc.group(1))
                     i += 1
                     continue
-                md = re.match(r"\s*//@\s+(\w+)(.*)$", l2)
+                md = re.match(r"\s*//@\s+(\w+\*?)(.*)$", l2)
                 if not md:
                     if l2.strip() == "" or l2.strip().startswith("//"):
                         i += 1
@@ -130,13 +130,15 @@ def _parse_unit(text, base_dir=None):
                     cur = ("loop", n)
                 elif k == "at_start":
                     cur = ("at_start", None)
-                elif k in ("before", "after"):
+                elif k in ("before", "after", "before*", "after*"):
                     ma = re.match(r"`(.*)`\s*:?\s*$", rest)
                     if not ma:
                         raise ValueError("bad %s directive: %r" % (k, l2))
-                    (ex.before if k == "before" else ex.after).append(
-                        (ma.group(1).replace("\\n", "\n").replace("\\t", "\t"), []))
-                    cur = (k, None)
+                    anc = ma.group(1).replace("\\n", "\n").replace("\\t", "\t")
+                    if k.endswith("*"):
+                        anc = "*" + anc  # leading `*`: splice at EVERY occurrence (at least one)
+                    (ex.before if k.startswith("before") else ex.after).append((anc, []))
+                    cur = (k.rstrip("*"), None)
                 elif k == "rewrite" or k == "sigrewrite":
                     ma = re.match(r"`(.*)` => `(.*)`(?:\s+x(\d+|\?))?\s*$", rest)
                     if not ma:
@@ -434,19 +436,31 @@ def transform(ex, src):
                 raise LostAnchor("%s: loop %d not found (%d loops)" % (ex.anchor, n, len(lp)))
             inserts.append((lp[n - 1], "\n" + "".join("        " + l + "\n" for l in txt.rstrip("\n").split("\n")) + "    "))
         record["transformations"].append("T2 loop contracts on loops %s" % sorted(ex.loops))
+    def _occurrences(anc):
+        if anc.startswith("*"):
+            a = anc[1:]
+            if body.count(a) < 1:
+                raise LostAnchor("%s: proof anchor %r occurs 0 times" % (ex.anchor, a))
+            res, start = [], 0
+            while True:
+                k = body.find(a, start)
+                if k < 0:
+                    break
+                res.append(k)
+                start = k + len(a)
+            return res
+        if body.count(anc) != 1:
+            raise LostAnchor("%s: proof anchor %r occurs %d times" % (ex.anchor, anc, body.count(anc)))
+        return [body.index(anc)]
     for anc, lines in ex.before:
-        if body.count(anc) != 1:
-            raise LostAnchor("%s: proof anchor %r occurs %d times" % (ex.anchor, anc, body.count(anc)))
-        idx = body.index(anc)
-        ls = body.rfind("\n", 0, idx) + 1
-        inserts.append((ls, "".join("        " + l + "\n" for l in lines)))
+        for idx in _occurrences(anc):
+            ls = body.rfind("\n", 0, idx) + 1
+            inserts.append((ls, "".join("        " + l + "\n" for l in lines)))
     for anc, lines in ex.after:
-        if body.count(anc) != 1:
-            raise LostAnchor("%s: proof anchor %r occurs %d times" % (ex.anchor, anc, body.count(anc)))
-        idx = body.index(anc)
-        le = body.find("\n", idx)
-        le = len(body) if le < 0 else le + 1
-        inserts.append((le, "".join("        " + l + "\n" for l in lines)))
+        for idx in _occurrences(anc):
+            le = body.find("\n", idx)
+            le = len(body) if le < 0 else le + 1
+            inserts.append((le, "".join("        " + l + "\n" for l in lines)))
     if ex.at_start:
         inserts.append((1, "\n" + "".join("        " + l + "\n" for l in ex.at_start)))
         record["transformations"].append("T4 proof block at function start")
